@@ -224,7 +224,7 @@ func (r *runner) opWalletLock(kind string, kv map[string]string) (string, string
 		if r.lockTimer != nil {
 			select {
 			case r.lockTimer <- t0:
-			case <-time.After(5 * time.Second):
+			case <-time.After(30 * time.Second): // generous: the wallet's locker goroutine always takes it
 				return "harness-error lock timer not taken", ""
 			}
 			r.wLocked, r.lockTimer = true, nil
